@@ -56,6 +56,7 @@ class RibRig:
         self.loop = asyncio.new_event_loop()
         self.new_routes: Any = None
         self.include_withdraw = False
+        self.send_eor = True
         self.buffer: list[tuple] = []
         self.empty_updates: list[str] = []
         self.sent: list[tuple] = []  # every event that reached the wire, in order
@@ -112,9 +113,8 @@ class RibRig:
         AttributeCollection.previous = b''
         msg = Message.unpack(2, body, self.neg_in)
         if getattr(msg, 'IS_EOR', False) or type(msg).__name__ == 'EOR':
-            # an UPDATE without any NLRI: recorded, not an event of the RIB (see finding F34)
-            self.empty_updates.append(raw.hex())
-            return []
+            # End-of-RIB (an UPDATE without NLRI; F34 was such a message sent by mistake)
+            return [('EOR', FAM_ID[(msg.nlris[0].afi, msg.nlris[0].safi)])]
         data = msg.data
         evs: list[tuple] = []
         for nlri in data.withdraws:
@@ -186,6 +186,16 @@ class RibRig:
             return 'ok'
         if k == 'tick':
             return self.tick()
+        if k == 'eor':
+            # one call of the real Peer._send_eor_messages, as _main does after _send_route_updates
+            conn = self.proto.connection
+            before = len(conn.sent)
+            self.send_eor = self.loop.run_until_complete(self.peer._send_eor_messages(self.send_eor, self.new_routes))
+            evs = []
+            for raw in conn.sent[before:]:
+                evs.extend(self.decode(raw))
+            self.sent.extend(evs)
+            return ';'.join(sorted(show_ev(e) for e in evs)) or '-'
         if k == 'lost':
             self.peer._restart = True
             self.peer._reset('lost', 'rig')
@@ -198,6 +208,7 @@ class RibRig:
             _, prev, new = op
             rib.replace_restart([self.route(*r) for r in prev], [self.route(*r) for r in new])
             self.include_withdraw = False  # `_main` prologue
+            self.send_eor = True  # `_main` prologue (manual-eor off)
             return 'ok'
         if k == 'reload':
             _, prev, new = op
@@ -238,7 +249,7 @@ def model_line(op: list) -> str:
         return f'rib {k} {op[1]}'
     if k == 'tick':
         return 'rib tick'
-    if k in ('lost', 'cache', 'pending'):
+    if k in ('lost', 'cache', 'pending', 'eor'):
         return f'rib {k}'
     if k in ('est', 'reload'):
         f = lambda rs: ','.join(rt(*r) for r in rs) or '-'
